@@ -797,9 +797,22 @@ func (g *xgen) applyEdit(doc *etree.Document, rs *ResponseSpec, w *World, kind i
 		}
 		return "nest-response-in-clean-response"
 	case 23: // white space between the children of a signed element: not a field of any decoded struct, but part of what was signed
+		// only as the LAST edit (a later one could strip the signature that covers the place) and only where a ds:Signature
+		// child of the target or of the root covers the target
+		hasSig := func(e *etree.Element) bool {
+			for _, ch := range e.ChildElements() {
+				if ch.Tag == "Signature" {
+					return true
+				}
+			}
+			return false
+		}
 		target := root
 		if len(as) > 0 {
 			target = as[0]
+		}
+		if !g.lastEdit || !(hasSig(target) || hasSig(root)) {
+			return ""
 		}
 		if kids := target.ChildElements(); len(kids) >= 2 {
 			target.InsertChildAt(kids[1].Index(), etree.NewText("\n    "))
@@ -1228,6 +1241,7 @@ func runResponseStream(c *Ctx, n int, focus string) {
 					if hugeFirst {
 						kind = 5 // forged sibling appended
 					}
+					g.lastEdit = e == nEd-1
 					if l := g.applyEdit(d2, rs, w, kind); l != "" {
 						rc.labels = append(rc.labels, l)
 						if l != "comment-in-nameid" || hasCommentC14N(rs) {
